@@ -59,7 +59,7 @@ C01TTCodeFails(c) ==
   FailSet(<<
     <<"ttcode-function", SeqSet(c.rows) = {r \in 0 .. 3 : c.code[r + 1] = 1}>>,
     <<"ttcode-type-denotes-code",
-        \A r \in 0 .. 3 : (c.code[r + 1] = 1) <=>
+        c.t \in OpTypes /\ \A r \in 0 .. 3 : (c.code[r + 1] = 1) <=>
             (IF c.t \in NullaryTypes THEN GateFn(c.t, <<>>) ELSE GateFn(c.t, RowBits(r, 2)))>>
   >>)
 
